@@ -22,7 +22,7 @@ var sim *vsim.Sim
 
 func TestMain(m *testing.M) {
 	vsim.Init()
-	sim = vsim.New(2)
+	sim = vsim.NewLookalike() // authorities that differ in one trailing digit
 	os.Exit(m.Run())
 }
 
